@@ -185,6 +185,14 @@ package vgirpc
 //@       (forall k int :: 0 <= k && k < len(arg0) - 1 ==> arg0[k] != MetaShmOffset && arg0[k] != MetaShmLength)
 //@   at call (*ShmSegment).ReadBatch assert [parsed] isDigits(offStr) && arg1 == decval(offStr)
 
+// the recovering literal itself stops every panic it sees: it never panics again (no explicit
+// panic, no failing assertion on the recovered value) and reports an error instead
+//
+//@ func ResolveShmBatch$1
+//@   property C35
+//@   nopanic
+//@   ensures [local_reported] rv != nil ==> err != nil && resolved == batch && !release
+
 // The slot writers: nothing is written outside the buffer, and the count is exact.
 //
 //@ func (*shmSliceWriter).Write
